@@ -1,9 +1,428 @@
 import Heph.Model.Types
+import Heph.Model.Subst
+import Heph.Spec.Subtyping
+import Heph.Proofs.TypesBasic
+import Heph.Proofs.TypesSound
+import Heph.Proofs.TypesFuel
+import Heph.Proofs.TypesMono
+import Heph.Proofs.TypesFlat
+/-!
+# C06 — the subtyping judgement is sound; exactness fails (non-transitivity witness)
+
+Model: `Heph.Ty.isSub` / `isSubtype` (`Model/Types.lean`, `types.py`).  Specification:
+`SubT U` / `ContL U` / `Cont U` relative to a universe `U` of types (class table), `ClosedU`,
+`Consistent`, and the decidable well-formedness `wf` (`Spec/Subtyping.lean`).
+
+* `isSub_sound` (+ `nominal_sound`, `containedL_sound`, `contained_sound`, `isSubtype_sound`,
+  `isSubtype_sound_in`, `assignable_sound`): every positive answer, at every fuel, is derivable
+  in `SubT U` for every universe `U` containing the two types.
+* `nothing_bot`, `bottomBuiltin_bot`: the bottom types are below everything.
+* `isSub_fuel`, `isSubtype_fuel`: the fuel of `isSubtype` never runs out on regular types
+  (`reg`); `isSubtype_fuel_counterexample`: on a non-regular type it does (the Python code
+  does not terminate there); `isSub_fuel_mono`, `isSub_fuel_indep`, `isSub_eq_isSubtype`: the
+  answer does not depend on the fuel.
+* `tconIsSub_sound`, `tconIsSub_subT`: a positive answer for a bare type constructor comes from
+  a matched element of its supertype closure.
+* `isSub_trans_counterexample`, `isSub_trans_false`, `isSub_exact_counterexample`: the code's
+  judgement is not transitive, hence not exact, on ground types (finding 6).
+* `isSub_exact_partial`, `isSub_trans_partial`: exactness and transitivity for receivers built
+  from built-ins and non-generic classes, in a consistent universe; `subT_nontrivial`,
+  `subT_trivial_without_universe`: why the relation carries a universe.
+* `isSub_refl_partial`, `isSubtype_refl`: reflexivity for regular built-ins, classifiers,
+  constructors, instantiations.
+-/
 namespace Heph.Props.C06
 open Heph Heph.Ty
+
+/-! ## 1. Soundness -/
+
+/-- **C06, soundness.** Whenever the type system answers that `s` is a subtype of `t` — with
+    any fuel — `s` is a subtype of `t` in the declarative relation of every universe (class
+    table) that contains the two types. -/
+theorem isSub_sound (U : Ty → Prop) (hU : ClosedU U) (fuel : Nat) (s t : Ty) (us : U s) (ut : U t)
+    (hs : wf s = true) (ht : wf t = true) (h : isSub fuel s t = .yes) : SubT U s t :=
+  (sound_all hU fuel).1 s t us ut hs ht h
+
+/-- `SimpleClassifier.is_subtype` (the `super().is_subtype` of instantiations) is sound -/
+theorem nominal_sound (U : Ty → Prop) (hU : ClosedU U) (fuel : Nat) (s t : Ty) (us : U s) (ut : U t)
+    (hs : wf s = true) (ht : wf t = true) (h : nominal fuel s t = .yes) : SubT U s t :=
+  (sound_all hU fuel).2.1 s t us ut hs ht h
+
+/-- the argument loop of `ParameterizedType.is_subtype` only accepts contained argument lists;
+    `projOK tps as` is the part of `wf (param _ con as _)` that concerns `tps = conParams con` -/
+theorem containedL_sound (U : Ty → Prop) (hU : ClosedU U) (fuel : Nat) (tps as bs : List Ty)
+    (ua : ∀ a ∈ as, U a) (ub : ∀ b ∈ bs, U b) (ha : wfL as = true) (hb : wfL bs = true)
+    (hp : projOK tps as = true) (h : containedL fuel tps as bs = .yes) : ContL U tps as bs :=
+  (sound_all hU fuel).2.2.1 tps as bs ua ub ha hb hp h
+
+/-- `_is_type_arg_contained` is sound: a reversed variance or an ignored bound is never accepted -/
+theorem contained_sound (U : Ty → Prop) (hU : ClosedU U) (fuel : Nat) (a b tp : Ty) (ua : U a)
+    (ub : U b) (ha : wf a = true) (hb : wf b = true) (hp : projOK1 tp a = true)
+    (h : contained fuel a b tp = .yes) : Cont U tp a b :=
+  (sound_all hU fuel).2.2.2 a b tp ua ub ha hb hp h
+
+/-- soundness of the top-level `s.is_subtype(t)`, in the least universe of the two types
+    (hence, by `SubT.mono`, in every universe that contains them) -/
+theorem isSubtype_sound (s t : Ty) (hs : wf s = true) (ht : wf t = true)
+    (h : isSubtype s t = .yes) : SubT (univ [s, t]) s t :=
+  isSub_sound _ (closedU_univ [s, t]) _ s t (univ_mem (by simp)) (univ_mem (by simp)) hs ht h
+
+theorem isSubtype_sound_in (U : Ty → Prop) (hU : ClosedU U) (s t : Ty) (us : U s) (ut : U t)
+    (hs : wf s = true) (ht : wf t = true) (h : isSubtype s t = .yes) : SubT U s t :=
+  isSub_sound U hU _ s t us ut hs ht h
+
+/-- `is_assignable` answers yes only for declarative subtypes, for a pair of the regenerated
+    numeric widening table (`Short` to `Integer`, …: both built-ins), or for two Java arrays
+    of the same primitive element type. -/
+theorem assignable_sound (extra : List (String × String)) (s t : Ty) (hs : wf s = true)
+    (ht : wf t = true) (h : isAssignable extra s t = .yes) :
+    SubT (univ [s, t]) s t ∨
+    (∃ c nm nt p ss c' nm' nt' p' ss', s = builtin c nm nt p ss ∧ t = builtin c' nm' nt' p' ss' ∧
+      (c, c') ∈ extra) ∨
+    (∃ nm con a as ss nm' con' b bs ss', s = param nm con (a :: as) ss ∧
+      t = param nm' con' (b :: bs) ss' ∧ isJavaArrayCon con = true ∧ isJavaArrayCon con' = true ∧
+      beq a b = true ∧ a.isPrim = true ∧ b.isPrim = true) := by
+  unfold isAssignable at h
+  split at h
+  · -- built-in receiver
+    split at h
+    · split at h
+      · rename_i c _ _ _ _ _ c' _ _ _ _
+        have h := ofBool_yes h
+        rw [List.any_eq_true] at h
+        obtain ⟨⟨p1, p2⟩, hmem, hp⟩ := h
+        simp only [Bool.and_eq_true, beq_iff_eq] at hp
+        obtain ⟨rfl, rfl⟩ := hp
+        exact Or.inr (Or.inl ⟨_, _, _, _, _, _, _, _, _, _, rfl, rfl, hmem⟩)
+      · cases h
+    · rename_i hne
+      exact Or.inl (isSubtype_sound _ _ hs ht h)
+  · split at h
+    · split at h
+      · rename_i hc
+        have h := ofBool_yes h
+        simp only [Bool.and_eq_true] at h hc
+        exact Or.inr (Or.inr ⟨_, _, _, _, _, _, _, _, _, _, rfl, rfl, hc.1.1, hc.1.2, h.1.1, h.1.2, h.2⟩)
+      · exact Or.inl (isSubtype_sound _ _ hs ht h)
+    · exact Or.inl (isSubtype_sound _ _ hs ht h)
+  · exact Or.inl (isSubtype_sound _ _ hs ht h)
+
+/-! ## 2. Bottom types and fuel adequacy -/
 
 /-- the bottom type is below every type (for every positive fuel) -/
 theorem nothing_bot (f : Nat) (t : Ty) : isSub (f + 1) .nothing t = .yes := by
   simp [isSub]
+
+/-- the languages' bottom built-ins (`Nothing` of Kotlin, …: `is_subtype` overridden to
+    `return True`) are below every type -/
+theorem bottomBuiltin_bot (f : Nat) (c nm : String) (p : Bool) (ss : List Ty) (t : Ty) :
+    isSub (f + 1) (builtin c nm true p ss) t = .yes := by
+  simp [isSub]
+
+theorem isSubtype_nothing (t : Ty) : isSubtype .nothing t = .yes := by
+  simp [isSubtype, fuelFor, isSub]
+
+/-- **fuel adequacy**, general form: on regular types (every instantiation node carries a
+    type constructor — true of every object `types.py` can build) a fuel of
+    `2 * (size s + size t) + 2` or more never runs out -/
+theorem isSub_fuel (f : Nat) (s t : Ty) (hs : reg s = true) (ht : reg t = true)
+    (hf : 2 * (size s + size t) + 2 ≤ f) : isSub f s t ≠ .fuel :=
+  (fuel_all f).1 s t hs ht hf
+
+/-- the fuel chosen by `isSubtype` suffices -/
+theorem isSubtype_fuel (s t : Ty) (hs : reg s = true) (ht : reg t = true) :
+    isSubtype s t ≠ .fuel :=
+  isSub_fuel _ s t hs ht (Nat.le_refl _)
+
+/-- the unconditional fuel-adequacy statement — false, see `isSubtype_fuel_counterexample` -/
+def isSubtype_fuel_all : Prop := ∀ s t, isSubtype s t ≠ .fuel
+
+/-- Regularity cannot be dropped: an instantiation whose `t_constructor` is not a type
+    constructor is not `==` to itself, the filter `st != self` of `SimpleClassifier.is_subtype`
+    keeps the receiver, and the recursion never ends — the real code would recurse forever
+    (`RecursionError`), the model answers `.fuel`.  Such types are never built:
+    `ParameterizedType.__init__` deep-copies a `TypeConstructor` (and reads its
+    `type_parameters`), so every instantiation node is regular. -/
+theorem isSubtype_fuel_counterexample :
+    isSubtype (simple "A" [param "P" .nothing [] []]) (simple "B" []) = .fuel := by decide
+
+theorem isSubtype_fuel_all_false : ¬ isSubtype_fuel_all :=
+  fun h => h _ _ isSubtype_fuel_counterexample
+
+/-- a definite answer does not change with more fuel -/
+theorem isSub_fuel_mono (f k : Nat) (s t : Ty) (h : isSub f s t ≠ .fuel) :
+    isSub (f + k) s t = isSub f s t := isSub_mono_add f k s t h
+
+/-- on regular types every fuel from `fuelFor s t` on computes `isSubtype s t`: the model's
+    answer does not depend on the constant chosen in `fuelFor` -/
+theorem isSub_fuel_indep (f : Nat) (s t : Ty) (hs : reg s = true) (ht : reg t = true)
+    (hf : fuelFor s t ≤ f) : isSub f s t = isSubtype s t := by
+  obtain ⟨k, rfl⟩ := Nat.exists_eq_add_of_le hf
+  exact isSub_mono_add _ k s t (isSubtype_fuel s t hs ht)
+
+/-- a definite answer at any fuel is the answer of `isSubtype` -/
+theorem isSub_eq_isSubtype (f : Nat) (s t : Ty) (hs : reg s = true) (ht : reg t = true)
+    (h : isSub f s t ≠ .fuel) : isSub f s t = isSubtype s t := by
+  rcases Nat.le_total f (fuelFor s t) with hle | hle
+  · obtain ⟨k, hk⟩ := Nat.exists_eq_add_of_le hle
+    unfold isSubtype
+    rw [hk, isSub_mono_add f k s t h]
+  · exact isSub_fuel_indep f s t hs ht hle
+
+/-! ## 3. Bare type constructors -/
+
+/-- `TypeConstructor.is_subtype` answers yes only when the other type is `==` to an element
+    of the receiver's supertype closure … -/
+theorem tconIsSub_sound (f : Nat) (c nm : String) (ps ss : List Ty) (t : Ty)
+    (h : isSub (f + 1) (tcon c nm ps ss) t = .yes) :
+    ∃ m ∈ closure (tcon c nm ps ss), beq t m = true := by
+  simp only [isSub] at h
+  split at h
+  · cases h
+  · rename_i m hfind
+    exact ⟨m, List.mem_of_find?_eq_some hfind, by simpa using List.find?_some hfind⟩
+
+/-- … which is a declarative supertype of the constructor (no well-formedness needed) -/
+theorem tconIsSub_subT (U : Ty → Prop) (hU : ClosedU U) (f : Nat) (c nm : String)
+    (ps ss : List Ty) (t : Ty) (us : U (tcon c nm ps ss))
+    (h : isSub (f + 1) (tcon c nm ps ss) t = .yes) : SubT U (tcon c nm ps ss) t := by
+  obtain ⟨m, hm, hbeq⟩ := tconIsSub_sound f c nm ps ss t h
+  rcases closure_sub hU _ m us hm with rfl | hsub
+  · exact SubT.reflR hbeq
+  · exact SubT.trans (closedU_closure hU _ m us hm) hsub (SubT.reflR hbeq)
+
+/-! ## 4. Non-vacuity: a concrete class table
+
+```
+open class A; class B : A()
+class Lst<out T>; class Base<T>; class Inv2<T, U>; class Num<T : A>
+class Foo<X> : Base<Lst<X>>()
+```
+Instances are built with the model of `TypeConstructor.new` (`tconNew`, C07). -/
+
+def anyT : Ty := builtin "<class 'src.ir.kotlin_types.AnyType'>" "Any" false false []
+def stringT : Ty := builtin "<class 'src.ir.kotlin_types.StringType'>" "String" false false [anyT]
+def ktNothing : Ty := builtin "<class 'src.ir.kotlin_types.NothingType'>" "Nothing" true false []
+def tcCls : String := "<class 'src.ir.types.TypeConstructor'>"
+def clsA : Ty := simple "A" [anyT]
+def clsB : Ty := simple "B" [clsA]
+def tX : Ty := tparam "X" 0 none
+def lstC : Ty := tcon tcCls "Lst" [tparam "T" 1 none] [anyT]
+def sinkC : Ty := tcon tcCls "Sink" [tparam "T" 2 none] [anyT]
+def baseC : Ty := tcon tcCls "Base" [tparam "T" 0 none] [anyT]
+def pairC : Ty := tcon tcCls "Pair" [tparam "T" 1 none, tparam "U" 1 none] [anyT]
+def fooC : Ty := tcon tcCls "Foo" [tX] [tconNew baseC [tconNew lstC [tX]]]
+def boundedY : Ty := tparam "Y" 0 (some clsA)
+
+/-- `Foo<String>` -/
+def s1 : Ty := tconNew fooC [stringT]
+/-- `Foo<out Any>` -/
+def s2 : Ty := tconNew fooC [wild 1 (some anyT)]
+/-- `Base<Lst<out Any>>` -/
+def s3 : Ty := tconNew baseC [tconNew lstC [wild 1 (some anyT)]]
+
+/-- the hypotheses of the soundness theorem hold of the example types -/
+example : wf clsB = true ∧ wf (tconNew lstC [clsB]) = true ∧ wf s1 = true ∧ wf s2 = true ∧
+    wf s3 = true ∧ wf fooC = true ∧ wf boundedY = true ∧
+    wf (tconNew baseC [wild 2 (some clsB)]) = true ∧ wf (tconNew sinkC [clsA]) = true := by decide
+example : reg s1 = true ∧ reg s2 = true ∧ reg s3 = true ∧ reg fooC = true := by decide
+
+/-- positive answers: nominal step, declaration-site covariance and contravariance, use-site
+    projections, star, supertype of an instantiation, bounded type variable, bare constructor -/
+example : isSubtype clsB clsA = .yes := by decide
+example : isSubtype clsB anyT = .yes := by decide
+example : isSubtype (tconNew lstC [clsB]) (tconNew lstC [clsA]) = .yes := by decide
+example : isSubtype (tconNew sinkC [clsA]) (tconNew sinkC [clsB]) = .yes := by decide
+example : isSubtype (tconNew baseC [clsB]) (tconNew baseC [wild 1 (some clsA)]) = .yes := by decide
+example : isSubtype (tconNew baseC [clsA]) (tconNew baseC [wild 2 (some clsB)]) = .yes := by decide
+example : isSubtype (tconNew baseC [clsA]) (tconNew baseC [wild 0 none]) = .yes := by decide
+example : isSubtype s1 (tconNew baseC [tconNew lstC [stringT]]) = .yes := by decide
+example : isSubtype boundedY clsA = .yes := by decide
+example : isSubtype fooC (tconNew baseC [tconNew lstC [tX]]) = .yes := by decide
+example : isSubtype ktNothing s3 = .yes := by decide
+/-- … and, by the soundness theorem, derivable in the declarative relation -/
+example : SubT (univ [tconNew lstC [clsB], tconNew lstC [clsA]]) (tconNew lstC [clsB]) (tconNew lstC [clsA]) :=
+  isSubtype_sound _ _ (by decide) (by decide) (by decide)
+
+/-- a reversed variance is answered no: covariant `Lst`, contravariant `Sink`, invariant `Base`,
+    reversed use-site projections -/
+example : isSubtype (tconNew lstC [clsA]) (tconNew lstC [clsB]) = .no := by decide
+example : isSubtype (tconNew sinkC [clsB]) (tconNew sinkC [clsA]) = .no := by decide
+example : isSubtype (tconNew baseC [clsB]) (tconNew baseC [clsA]) = .no := by decide
+example : isSubtype (tconNew baseC [clsA]) (tconNew baseC [wild 1 (some clsB)]) = .no := by decide
+example : isSubtype (tconNew baseC [clsB]) (tconNew baseC [wild 2 (some clsA)]) = .no := by decide
+/-- a skipped type argument is answered no: the second argument is checked too -/
+example : isSubtype (tconNew pairC [clsB, clsA]) (tconNew pairC [clsA, clsB]) = .no := by decide
+example : isSubtype (tconNew pairC [clsB, clsB]) (tconNew pairC [clsA, clsA]) = .yes := by decide
+/-- an ignored bound is answered no: a type variable is below its bound only; an unbounded
+    one is below nothing, not even a supertype of every class -/
+example : isSubtype boundedY clsB = .no := by decide
+example : isSubtype boundedY stringT = .no := by decide
+example : isSubtype tX anyT = .no := by decide
+example : isSubtype (tconNew lstC [boundedY]) (tconNew lstC [clsB]) = .no := by decide
+
+/-! ## 5. Exactness: the full statement is false of the code -/
+
+mutual
+/-- types "built from a completed class table using only non-generic classes, built-ins and
+    instantiations of generic classes with such types or bounded projections of them": no type
+    variables, primitives, star projections, bare constructors -/
+def ground : Ty → Bool
+  | builtin _ _ _ p ss => !p && groundL ss
+  | simple _ ss => groundL ss
+  | param _ con as ss => isTCon con && groundArgs as && groundL ss
+  | nothing => true
+  | _ => false
+def groundL : List Ty → Bool
+  | [] => true
+  | x :: xs => ground x && groundL xs
+/-- type arguments: ground types or bounded `out`/`in` projections of ground types -/
+def groundArgs : List Ty → Bool
+  | [] => true
+  | wild v (some b) :: xs => (v == 1 || v == 2) && ground b && groundArgs xs
+  | x :: xs => ground x && groundArgs xs
+end
+
+/-- **C06, exactness — FULL statement, false of the code** (`isSub_exact_counterexample`): in
+    every consistent universe (the types over one completed class table), on well-formed ground
+    types the answer coincides with the declarative relation. -/
+def isSub_exact : Prop :=
+  ∀ (U : Ty → Prop), ClosedU U → Consistent U →
+    ∀ s t, U s → U t → wf s = true → wf t = true → ground s = true → ground t = true →
+      (isSubtype s t = .yes ↔ SubT U s t)
+
+/-- transitivity of the answers on ground types — FULL statement, false of the code -/
+def isSub_trans : Prop :=
+  ∀ s u t, wf s = true → wf u = true → wf t = true → ground s = true → ground u = true →
+    ground t = true → isSubtype s u = .yes → isSubtype u t = .yes → isSubtype s t = .yes
+
+/-- **Finding 6**, on the model: with `class Foo<X> : Base<Lst<X>>`,
+    `Foo<String> <: Foo<out Any>` and `Foo<out Any> <: Base<Lst<out Any>>` are answered yes,
+    `Foo<String> <: Base<Lst<out Any>>` is answered no.  (The stored supertype of
+    `Foo<String>` is `Base<Lst<String>>`, and `Base` is invariant, so the nested covariance of
+    `Lst` is never consulted.)  The harness replays the same three pairs on `types.py`
+    (`corpus_pairs` of `check_C06.py`). -/
+theorem isSub_trans_counterexample :
+    isSubtype s1 s2 = .yes ∧ isSubtype s2 s3 = .yes ∧ isSubtype s1 s3 = .no := by decide
+
+/-- the witness meets every hypothesis of the full statements -/
+theorem witness_hyps : wf s1 = true ∧ wf s2 = true ∧ wf s3 = true ∧
+    ground s1 = true ∧ ground s2 = true ∧ ground s3 = true := by decide
+
+/-- the universe of the witness (all sub-terms of the three types) is consistent -/
+theorem witness_consistent : Consistent (univ [s1, s2, s3]) :=
+  consistent_of_consistentL (by decide)
+
+theorem isSub_trans_false : ¬ isSub_trans := by
+  intro h
+  obtain ⟨w1, w2, w3, g1, g2, g3⟩ := witness_hyps
+  obtain ⟨h12, h23, h13⟩ := isSub_trans_counterexample
+  have := h s1 s2 s3 w1 w2 w3 g1 g2 g3 h12 h23
+  rw [h13] at this
+  cases this
+
+/-- the declarative relation does relate the outer pair (by `trans`, through soundness) … -/
+theorem witness_subT : SubT (univ [s1, s2, s3]) s1 s3 := by
+  obtain ⟨w1, w2, w3, _⟩ := witness_hyps
+  obtain ⟨h12, h23, _⟩ := isSub_trans_counterexample
+  have hU := closedU_univ [s1, s2, s3]
+  have u1 : univ [s1, s2, s3] s1 := univ_mem (by simp)
+  have u2 : univ [s1, s2, s3] s2 := univ_mem (by simp)
+  have u3 : univ [s1, s2, s3] s3 := univ_mem (by simp)
+  exact SubT.trans u2 (isSubtype_sound_in _ hU _ _ u1 u2 w1 w2 h12)
+    (isSubtype_sound_in _ hU _ _ u2 u3 w2 w3 h23)
+
+/-- … so the code's judgement is incomplete there: exactness fails -/
+theorem isSub_exact_counterexample : ¬ isSub_exact := by
+  intro h
+  obtain ⟨w1, _, w3, g1, _, g3⟩ := witness_hyps
+  have := (h _ (closedU_univ [s1, s2, s3]) witness_consistent s1 s3 (univ_mem (by simp))
+    (univ_mem (by simp)) w1 w3 g1 g3).2 witness_subT
+  rw [isSub_trans_counterexample.2.2] at this
+  cases this
+
+/-- **exactness, the part that holds**: for a receiver built from (non-bottom) built-ins and
+    non-generic classes only (`flat`), in a consistent universe, the answer of `is_subtype`
+    coincides with the declarative relation — against every well-formed `t` of the universe.
+    Missing from the full statement: receivers that are instantiations of generic classes
+    (where it is false, `isSub_exact_counterexample`). -/
+theorem isSub_exact_partial (U : Ty → Prop) (hU : ClosedU U) (hC : Consistent U) (s t : Ty)
+    (us : U s) (ut : U t) (hs : flat s = true) (ht : wf t = true) :
+    isSubtype s t = .yes ↔ SubT U s t :=
+  (flat_exact hU hC us ut hs ht).symm
+
+/-- hence transitivity of the answers on the non-generic fragment -/
+theorem isSub_trans_partial (U : Ty → Prop) (hU : ClosedU U) (hC : Consistent U) (s u t : Ty)
+    (us : U s) (uu : U u) (ut : U t) (hs : flat s = true) (hu : flat u = true) (ht : wf t = true)
+    (h1 : isSubtype s u = .yes) (h2 : isSubtype u t = .yes) : isSubtype s t = .yes :=
+  (isSub_exact_partial U hU hC s t us ut hs ht).2
+    (SubT.trans uu ((isSub_exact_partial U hU hC s u us uu hs (flat_wf u hu)).1 h1)
+      ((isSub_exact_partial U hU hC u t uu ut hu ht).1 h2))
+
+/-- the declarative relation of a consistent universe is not trivial: `class A : Any` is not
+    below `String` (without the universe restriction on `trans` it would be, through a foreign
+    copy of `Any`) -/
+theorem subT_nontrivial : ¬ SubT (univ [clsA, stringT]) clsA stringT := by
+  intro h
+  have := (isSub_exact_partial _ (closedU_univ _) (consistent_of_consistentL (by decide))
+    clsA stringT (univ_mem (by simp)) (univ_mem (by simp)) (by decide) (by decide)).2 h
+  revert this
+  decide
+
+/-- a foreign copy of `Any` whose stored supertype is `String` -/
+def anyLiar : Ty := builtin "<class 'src.ir.kotlin_types.AnyType'>" "Any" false false [stringT]
+
+/-- … and in the *unrestricted* universe it is: this is why `SubT` carries a universe -/
+theorem subT_trivial_without_universe : SubT (fun _ => True) clsA stringT :=
+  SubT.trans (u := simple "A" [anyLiar]) trivial (SubT.refl (by decide))
+    (SubT.trans (u := anyLiar) trivial (SubT.nominal (by simp [sups])) (SubT.nominal (by simp [sups, anyLiar])))
+
+example : flat clsB = true ∧ flat stringT = true ∧ Consistent (univ [clsB, clsA, stringT]) :=
+  ⟨by decide, by decide, consistent_of_consistentL (by decide)⟩
+
+/-! ## 6. Reflexivity (the part that holds) -/
+
+/-- `x == x` on regular types -/
+theorem beq_self (s : Ty) (h : reg s = true) : beq s s = true := beq_refl s h
+
+/-- kinds of receivers on which `is_subtype` is reflexive: everything but type variables,
+    projections and function types -/
+def reflKind : Ty → Bool
+  | tparam .. => false
+  | wild .. => false
+  | ext _ => false
+  | _ => true
+
+/-- reflexivity: a regular built-in, classifier, type constructor, instantiation (or the
+    bottom type) is a subtype of itself, at every fuel ≥ 2.  Not so for type variables
+    (`X.is_subtype(X)` is `False`: only the bound is compared), projections with a variance
+    other than `out`, and function types. -/
+theorem isSub_refl_partial (f : Nat) (s : Ty) (hr : reg s = true) (hk : reflKind s = true) :
+    isSub (f + 2) s s = .yes := by
+  have hb := beq_refl s hr
+  cases s with
+  | nothing => simp [isSub]
+  | ext c => simp [reflKind] at hk
+  | tparam nm v bd => simp [reflKind] at hk
+  | wild v bd => simp [reflKind] at hk
+  | builtin c nm nt p ss =>
+    simp only [isSub, hb, Bool.true_or, Res.ofBool]
+    split <;> rfl
+  | simple nm ss => simp only [isSub, nominal, hb, if_true]
+  | param nm con as ss => simp only [isSub, nominal, hb, if_true]
+  | tcon c nm ps ss =>
+    simp only [isSub, closure, List.find?, hb, isParam]
+    rfl
+
+theorem isSubtype_refl (s : Ty) (hr : reg s = true) (hk : reflKind s = true) :
+    isSubtype s s = .yes := by
+  have : fuelFor s s = (2 * (size s + size s)) + 2 := rfl
+  unfold isSubtype
+  rw [this]
+  exact isSub_refl_partial _ s hr hk
+
+example : reg s2 = true ∧ reflKind s2 = true := by decide
+/-- `X.is_subtype(X)` is `False` -/
+example : isSubtype tX tX = .no := by decide
 
 end Heph.Props.C06
